@@ -81,7 +81,7 @@ RECURSIVE ValSem(_, _)
 ValSem(v, a) ==
   CASE v.k = "any"   -> TRUE
     [] v.k = "int"   -> CASE a.k \in {"int", "fd"} -> a.v = v.v
-                          [] a.k = "float"        -> a.raw = v.v * 256
+                          [] a.k = "float"        -> a.raw % 256 = 0 /\ a.raw \div 256 = v.v   \* (no product: 32-bit integers)
                           [] a.k = "obj"          -> a.obj.id = v.v
                           [] OTHER                -> FALSE
     [] v.k = "float" -> a.k = "float" /\ a.raw = v.raw
